@@ -580,7 +580,7 @@ def run(ctx):
     ref_selftest()
     build.ensure("rel")
     fast = int(os.environ.get("VERIF_FAST", "0"))      # mutant screening: first 1/fast of the same case list, no ASan part
-    cs = cases(ctx, ctx.pick(120, 1200), 40, "rel", "rel")
+    cs = cases(ctx, ctx.pick(120, 800), 40, "rel", "rel")
     oc = organic_cases(ctx, ctx.pick(48, 300))
     if fast:
         cs, oc = cs[:len(cs) // fast], oc[:len(oc) // fast]
@@ -591,10 +591,10 @@ def run(ctx):
         return
     build.ensure("asan")
     acs = []
-    for c in cases(ctx, ctx.pick(12, 96), 25, "asan", "asan"):
+    for c in cases(ctx, ctx.pick(12, 48), 25, "asan", "asan"):
         # small slices: a sanitizer abort loses at most five injections
         acs += [dict(c, k0=k0, ninj=k0 + 5) for k0 in range(0, 25, 5)]
-    _collect(ctx, acs, par.run("vf.props.c30", "worker", acs, nproc=16, timeout=ctx.pick(600, 1500), asan=True))
+    _collect(ctx, acs, par.run("vf.props.c30", "worker", acs, nproc=16, timeout=ctx.pick(1500, 2400), asan=True))
     if not ctx.counters.get("models@asan"):
         ctx.inconclusive("no ASan cases ran")
     n = max(1, ctx.evaluations)
